@@ -1207,22 +1207,42 @@ MANIFEST_ENTRY = {
     'text': ('PROVED for all inputs (Props/C10.lean, standard axioms): (1) clenshaw_sum - for every three-term family with arbitrary '
              'p_0 and arbitrary constants added to the recurrence, every point and every coefficient list of any length (0, 1, 2 '
              'included) the Clenshaw read-out alpha_0 p_0 + sum e_n alpha_{n+1} equals sum s_n p_n(x); instances: '
-             'jacobi_sum_clenshaw = sum s_n jacobi(n) with the value routine\'s explicit P_0, P_1 and both branches of recurrence_abc; '
-             'clenshaw_qbfs = u^2(1-u^2) sum c_n Q_n with 2(alpha_0+alpha_1) as read-out; the 2D-Q radial sum 0.5 alpha_0 - [m=1, N>2] '
-             '2/5 alpha_3 = sum c_n Q_n^m for every m >= 1 (q2d_aux_family proves that abc_q2d_clenshaw with the -2/5 constant '
-             'generates exactly the auxiliary polynomials P_0..P_3,... of the value routine Q2d). (2) change_of_basis_qbfs / _q2d for '
-             'every non-vanishing f and every g, h. (3) q2d_total - the per-m accumulation equals the explicit double sum for every '
-             'combination of present/absent/empty cosine and sine lists, unequal outer and radial lengths. (4) pack_roundtrip + '
-             'pack_shape for every sparse input incl. absent families. (5) tensordot_sum. (6) lstsq_recovers (unique minimiser of the '
-             'masked cost = synthesising coefficients when the modes are independent on the finite samples) and lstsq_ignores_invalid. '
+             'jacobi_sum_clenshaw = sum s_n jacobi(n) with the value routine\'s explicit P_0, P_1 and both branches of recurrence_abc '
+             '(no hypothesis on alpha, beta because x/0 = 0 in a field: where Python raises ZeroDivisionError the theorem says nothing '
+             'useful); clenshaw_qbfs = u^2(1-u^2) sum c_n Q_n with 2(alpha_0+alpha_1) as read-out; the 2D-Q radial sum 0.5 alpha_0 - '
+             '[m=1, N>2] 2/5 alpha_3 = sum c_n Q_n^m for every m >= 1 (q2d_aux_family proves that abc_q2d_clenshaw with the -2/5 constant '
+             'generates exactly the auxiliary polynomials P_0..P_3,... of the MODEL of the value routine Q2d; that model - qbfsQPair, '
+             'q2dPPair, jacobiPair - has no translator item here and is tied to Qbfs / Q2d / jacobi by execution only). (2) '
+             'change_of_basis_qbfs / _q2d for every non-vanishing f and every g, h (f, g, h are parameters: a wrong table consistent between '
+             'value routine and fast path is invisible here by design). (3) q2d_total - the per-m accumulation equals the explicit double '
+             'sum for every combination of present/absent/empty cosine and sine lists, unequal outer and radial lengths. (4) pack_roundtrip '
+             '+ pack_shape for every sparse input incl. absent families (about the model packer). (5) tensordot_sum (the index formula of '
+             'the contraction equals the weighted sum; np.tensordot itself is trusted). (6) lstsq: lstsq_recovers (unique minimiser of the '
+             'masked cost = synthesising coefficients when the modes are independent on the finite samples), lstsq_ignores_invalid, and '
+             'the bridge normal_equations_minimise (any vector satisfying the normal equations on the kept samples minimises the masked '
+             'cost); the executable oracle lstsqNormal is NOT proved to solve them - instead every reply of the driver is re-checked '
+             'exactly (rational arithmetic) against the normal equations at run time, and the harness refuses a reply without that flag. '
              'TRANSLATED from the current source each run and proved equal to the model (gen_* theorems): recurrence_abc (both branches '
              'and the branch test), the sweep step / which coefficient order feeds a,b vs c / read-write indices / loop bounds / seeds / '
              'one-term guards of jacobi_sum_clenshaw, change_basis_Qbfs_to_Pn, clenshaw_qbfs, change_of_basis_Q2d_to_Pnm, clenshaw_q2d; '
              'abc_q2d numerators and denominator; the abc_q2d_clenshaw patch table; the read-out, correction guard, per-side evaluation, '
-             'skip condition and zip_longest pairing of compute_z_zprime_Q2d; max(..., default=0) in Q2d_nm_c_to_a_b; tensordot axes; '
-             'the mask plumbing of lstsq. MODELLED AND COMPARED: the NumPy loops around those steps, compute_z_zprime_Q2d end to end, '
-             'Q2d_nm_c_to_a_b (exact structure), sum_of_2d_modes, lstsq against an exact rational normal-equation solve.'),
+             'skip condition and zip_longest pairing of compute_z_zprime_Q2d. STRUCTURAL FACTS (Booleans computed by the translator from '
+             'the syntax tree, opaque to Lean; three-valued - a recognised wrong shape is false and fails the proof, an unrecognised '
+             'spelling is reported as untranslatable / TIE-DEGRADED): max(..., default=0) in Q2d_nm_c_to_a_b, the tensordot axes (compared '
+             'as values), the mask plumbing of lstsq (equivalent reshape / mask spellings accepted). COMPARED ONLY: the NumPy loops around '
+             'the translated steps, the value routines Qbfs / Qcon / Q2d, compute_z_zprime_Q2d end to end, the body of Q2d_nm_c_to_a_b '
+             '(n <= 10, |m| <= 8, zero coefficients, list rows; compared up to trailing zeros / absent-vs-empty), sum_of_2d_modes, lstsq '
+             'against the exact rational solve, the consumers Interferogram.pvr (surface inside the span of the 36 fitted terms) and '
+             'fit_plane (modes as a list). Qcon sag and compute_z_zprime_Qbfs/_Qcon slopes are C09 (qcon_sag_is_sum, zzqcon items); here '
+             'they are called through the aliasing / coordinate-form items only. EXECUTED INPUT FORMS: list / tuple / ndarray (int64, '
+             'float32, float64) coefficients evaluated twice on the same objects; float64 / float32 / int / 0-d / 2-D / 3-D / strided '
+             'coordinates and Python / NumPy scalars; signed m; modes of dtype f64 / f32 / i64 / bool / c128 with weights f64 / f32 / i64 / '
+             'c128 / list, mismatched lengths must raise; lstsq with C / F / transposed / strided / reversed layouts of data and modes, 1-D '
+             'data, modes as list, one-row and one-column grids, +-inf and NaN masks, poisoned modes at masked samples.'),
     'note': ('partial in this sense: the link "Python loop with these bounds fills exactly these entries" is checked by execution, not '
-             'proved; np.linalg.lstsq is trusted to return the minimiser; f/g/h (square roots, factorials) are parameters of the theorems and '
-             'numbers taken from prysm in the runs; rounding error is not part of any theorem (comparisons at 1e-9 relative, lstsq 1e-7).'),
+             'proved; np.linalg.lstsq and np.tensordot are trusted; the exact oracle is validated per reply, not proved; the value '
+             'routines are compared, not translated; f/g/h (square roots, factorials) are parameters of the theorems and numbers taken '
+             'from prysm in the runs; rank-deficient lstsq draws are skipped and counted in filtered_known; exact Fraction streams are '
+             'skipped with a note when the implementation does not accept such objects; rounding error is not part of any theorem '
+             '(comparisons at 1e-9 relative, lstsq 1e-7, float32 inputs 1e-4).'),
 }
